@@ -88,12 +88,16 @@ def assigns_in_output(m, oname, attr):
     out = []
     if fn is None:
         return out
+    from .astutil import resolve_local
     for n in ast.walk(fn):
         if isinstance(n, ast.Assign):
             for t in n.targets:
                 if isinstance(t, ast.Attribute) and isinstance(t.value, ast.Name) and t.value.id == "self" \
                         and t.attr == attr:
-                    out.append(n.value)
+                    v = n.value
+                    if isinstance(v, ast.Name):
+                        v = resolve_local(fn, v)     # `result = X(); self._result = result`
+                    out.append(v)
     return out
 
 
